@@ -45,6 +45,35 @@ def table(name, y0, y1):
     return out
 
 
+def usable(name, y0, y1):
+    """the zoneinfo-derived table (system tzdata) must agree with pytz's bundled data on every transition of the
+    window; if the two data copies differ (different tzdata releases) the zone is not used as an oracle"""
+    key = ("usable", name, y0, y1)
+    if key in _CACHE:
+        return _CACHE[key]
+    ok = True
+    try:
+        import pytz
+        tz = pytz.timezone(name)
+        tab = table(name, y0, y1)
+        ours = [(t, off) for t, off in tab[1:]]
+        theirs = []
+        tt = getattr(tz, "_utc_transition_times", [])
+        ti = getattr(tz, "_transition_info", [])
+        lo, hi = tab[0][0], _dt.datetime(y1, 12, 31, 23) + _dt.timedelta(days=2)
+        prev = None
+        for t, inf in zip(tt, ti):
+            off = int(inf[0].total_seconds())
+            if lo < t <= hi and off != prev:
+                theirs.append((t, off))
+            prev = off
+        ok = ours == theirs
+    except Exception:
+        ok = False
+    _CACHE[key] = ok
+    return ok
+
+
 def _pair(t):
     return t.toordinal(), ((t.hour * 60 + t.minute) * 60 + t.second) * 1000000 + t.microsecond
 
